@@ -11,8 +11,8 @@ from mcv.gen import cue as Q
 from mcv.ref import names as N
 
 AKAI_FILE = ["A", "A L", "A R", "A-L", "A -R", "A.", "A..", "-A", "A+", ".", "..", "+", "#", "A+B", "A B", "A-", "0",
-             "", "A.L", "-L", "-R", "A.WAV"]
-AKAI_DIR = ["A", "A.", "A..", "-A", "A+", "A-", ".A", "#", "A+B", "A B", "0", "", ".", ".."]
+             "", "A.L", "-L", "-R", "A.WAV", "A  B"]
+AKAI_DIR = ["A", "A.", "A..", "-A", "A+", "A-", ".A", "#", "A+B", "A B", "0", "", ".", "..", "A  B"]
 HOSTILE = ["a", "a/b", "a\\b", "..", "../x", "/abs", ".", "", " ", "a.", "a .", "a..", "-a", '"q"', "a'b", "\x01a",
            "a:b", "a*?", "A", "a (2)", "\xe9", "a L", "a R", " -L", " -R", "/", "<\\>", "?/?", "a.wav", "A.WAV"]
 ABS = "@ABS@"      # replaced by an absolute path that lies in the watched scratch area
